@@ -1025,7 +1025,7 @@ def rough_part(ctx):
                     from harness import diffcommon as D
                     try:
                         if D.in_model_guard(t1, t2) and not has_crash_key(t1) and not has_crash_key(t2):
-                            expr, exp, g = diff_model_case(t1, t2, cfg, d.get("deep_distance", None))
+                            expr, exp, g = diff_model_case(a, b, cfg, d.get("deep_distance", None))   # the very objects of the real run (set iteration order)
                             dm_cases.append((expr, exp, {"t1": repr(t1), "t2": repr(t2), "config": cfg, "impl": repr(d.get("deep_distance", None))}))
                             ctx.count("diff_model:" + ("zip" if cfg.get("zip_ordered_iterables") else "default") + ("/inside_guard" if g else "/outside_guard"))
                             x = d.get("deep_distance", None)
